@@ -4,6 +4,7 @@ Reflection over the modules as they are imported NOW:
   pack.REQ_ORDER / pack.RESP_ORDER        (what http_redirect_message iterates over when signing)
   sigver.REQ_ORDER / sigver.RESP_ORDER    (what verify_redirect_signature iterates over)
   sigver.SIGNER_ALGS                      (key set + the digest each shared signer object carries)
+  sigver.RSACrypto.get_signer             (shared module-level object with the key stored on it, or a fresh one)
   pack.SIG_ALLOWED_ALG                    (values accepted by http_redirect_message's assert)
   pack.urlencode / sigver.urlencode       (which percent-encoder each side really uses: measured on all
                                            256 single bytes and classified; only the treatment of '~'
@@ -66,6 +67,33 @@ def digest_name(signer):
     return n
 
 
+def measure_shared(sigver):
+    """Does RSACrypto.get_signer hand out the module-level signer object and store the caller's key on it
+    (True), or a fresh signer carrying the caller's key and leaving SIGNER_ALGS alone (False)?  Measured with
+    two sentinel keys on every algorithm; the table's keys are restored afterwards.  Anything else is refused."""
+    k1, k2 = object(), object()
+    verdicts = set()
+    for alg, obj in sigver.SIGNER_ALGS.items():
+        had = hasattr(obj, "key")
+        saved = getattr(obj, "key", None)
+        try:
+            h1 = sigver.RSACrypto(k1).get_signer(alg)
+            h2 = sigver.RSACrypto(k2).get_signer(alg)
+            if h1 is obj and h2 is obj and obj.key is k2:
+                verdicts.add(True)
+            elif h1 is not obj and h2 is not obj and h1 is not h2 and h1.key is k1 and h2.key is k2 \
+                    and getattr(obj, "key", None) is saved and h1.digest is obj.digest:
+                verdicts.add(False)
+            else:
+                raise TypeError("get_signer(%s) is neither 'the shared object with the key stored on it' nor 'a fresh signer per call'" % alg)
+        finally:
+            if had:
+                obj.key = saved
+    if len(verdicts) != 1:
+        raise TypeError("get_signer behaves differently for different algorithms: %r" % verdicts)
+    return verdicts.pop()
+
+
 def regen_redirect():
     sigver = _fresh("saml2_tophat.sigver")
     pack = _fresh("saml2_tophat.pack")
@@ -87,7 +115,10 @@ def regen_redirect():
             "Definition sig_allowed_alg : list str := %s.\n" % _strlist("SIG_ALLOWED_ALG", [b for _, b in allowed]) +
             "\n(* does the urlencode each module imported leave '~' unescaped? (measured over all bytes) *)\n"
             "Definition pack_urlencode_tilde_safe : bool := %s.\n" % ("true" if classify_urlencode("pack.urlencode", pack.urlencode) else "false") +
-            "Definition sigver_urlencode_tilde_safe : bool := %s.\n" % ("true" if classify_urlencode("sigver.urlencode", sigver.urlencode) else "false"))
+            "Definition sigver_urlencode_tilde_safe : bool := %s.\n" % ("true" if classify_urlencode("sigver.urlencode", sigver.urlencode) else "false") +
+            "\n(* does RSACrypto.get_signer hand out the module-level signer object and store the caller's key on it?\n"
+            "   (measured with sentinel keys on every algorithm) *)\n"
+            "Definition get_signer_returns_shared_object : bool := %s.\n" % ("true" if measure_shared(sigver) else "false"))
     return write_if_changed(COQ + "/Gen/RedirectConsts.v", text)
 
 
